@@ -131,3 +131,34 @@ PLANS["C19"] = dict(kind="func", stages=[aws_stage([GRID_Q], [GRID_T], max_q=150
                                  [D("reap", faults=30, odd=True), D("mix", faults=25, lag=True)],
                                  [D("reap", n=60, steps=100, procs=8, faults=30, odd=True), D("mix", n=60, steps=100, procs=8, faults=25, lag=True)],
                                  "see provider level", ["C19:node-deletes", "C19:terminate-failed", "C19:not-in-group", "C19:down-to-minimum"]))
+
+FUNC_ASSUMPTIONS = [
+    "the real functions are called through exported names or the build-tag-guarded wrappers in pkg/controller/verif_hooks.go; nothing is mocked",
+    "TLC integers are 32 bit: quantities are expressed in units (100m CPU, 1 MiB) and every case is additionally run at a 37x larger scale, which keeps ratios exact; floating-point rounding itself is exercised only through the real code",
+]
+
+
+def calc_stage(fam, max_q=None, max_t=None):
+    return dict(gen=dict(quick=[("CalcGrid.tla", "CalcGrid_%s.cfg" % fam, {"Seed": "@SEED@"})],
+                         thorough=[("CalcGrid.tla", "CalcGrid_%s.cfg" % fam, {"Tier": '"thorough"', "Seed": "@SEED@"})]),
+                cmd="calc", trace="TraceCalc", max_cases=dict(quick=max_q, thorough=max_t), seeded=True)
+
+
+PLANS["C05"] = dict(kind="func", stages=[calc_stage("delta", max_t=150000)],
+                    rule="cases: every point of the (nodes, node size, threshold, cpu request, memory request) grid, each at two magnitudes, through the real calcPercentUsage + calcScaleUpDelta "
+                         "as the controller chains them; controller level: scale-up scans of histories; non-trivial: a point above the threshold or a scale-up from zero",
+                    required_facts=["C05:above-threshold", "C05:exactly-on-threshold", "C05:memory-bound", "C05:cpu-bound", "C05:from-zero-cached", "C05:from-zero-no-cache", "C05:large-magnitude"],
+                    assumptions=FUNC_ASSUMPTIONS + COMMON_ASSUMPTIONS,
+                    also_ctl=ctl(["updown"], ["updown"],
+                                 [D("up", faults=0, dry=0, fine=True), D("mix", faults=0, dry=0, fine=True)],
+                                 [D("up", n=60, steps=100, procs=8, faults=0, dry=0, fine=True), D("mix", n=60, steps=100, procs=8, faults=0, dry=0, fine=True)],
+                                 "see function level", ["C05:scale-up"]))
+PLANS["C13"] = dict(kind="func", stages=[calc_stage("pods"), calc_stage("nodes"), calc_stage("delta", max_q=1500, max_t=30000)],
+                    rule="cases: every pod shape of the universe (0-3 containers, 0-2 init containers, overhead, missing requests, quantities in mixed notations) singly and in sampled bags listed in 4 orders; "
+                         "node allocatable lists in 4 orders; the utilisation grid; controller level: request / capacity / percent gauges after every scan of the histories",
+                    required_facts=["C13:pods", "C13:pods-permuted", "C13:init-dominates", "C13:overhead", "C13:nodes", "C13:nodes-permuted", "C13:percent"],
+                    assumptions=FUNC_ASSUMPTIONS + COMMON_ASSUMPTIONS,
+                    also_ctl=ctl(["updown"], ["updown"],
+                                 [D("mix", faults=5, fine=True), D("up", faults=5)],
+                                 [D("mix", n=60, steps=100, procs=8, faults=5, fine=True), D("up", n=60, steps=100, procs=8, faults=5)],
+                                 "see function level", ["C13:totals-checked", "C13:percent-checked", "C13:several-pods"]))
